@@ -25,6 +25,13 @@ PED = [("/d/f.txt", "/d/out"), ("/d/nofile", "/d/sub/o2"), ("/d/../master.c", "/
 POL_FULL = ["allow", "echo"]
 POL_ERR = ["raise", "raiseon=[d/sub]", "raiseon=[/d/f.txt]", "raiseon=[/d/sub]", "odd=[array]", "odd=[emptyarray]",
            "odd=[float]", "odd=[float0]", "odd=[object]", "odd=[neg]", "odd=[two]"]
+POL_KIND = ["ro", "wo", "ropath=[/d/f.txt]", "ropath=[/d/out]"]
+SESSIONS = [("/d/f.txt", "a:x,w,q"), ("/d/f.txt", "a:x,x"), ("/d/f.txt", "a:x,w:/d/out,e:/d/out,f,f:/d/other,w,q"),
+            ("/d/f.txt", "a:x,e:/d/obj.c,E:/d/obj.c,r:/d/inc.h,W:/d/f.txt,q,Q"), ("/d/nofile", "w,a:hello,w,W,x"),
+            ("/d/nofile", "a:y,w:out2,e:out2,r:out2,x"), ("/d/../x", "a:x,w,f:/d/f.txt,w,x"),
+            ("/d", "w,a:x,w,x,Q"), ("/d/f.txt", "r,r:/d/nofile,w:/d/sub,w:/d/sub/n,x"),
+            ("/d/f.txt", "f:/../outside.txt,w,e:/../outside.txt,r://abs,w:/d/../x,Q"), ("/d/f.txt", "q,w"),
+            ("/d/f.txt", "a:1,a:2,W,W:/d/f.txt,e,E,f,x")]
 POL_FEW = ["deny", "fixed=[/a/a]", "fixed=[/d]", "fixed=[/../outside.txt]", "fixed=[//nonexistent-c15/x/y]",
            "fixed=[/d/new]", "fixed=[]"]
 INC_BASES = ["x.c", "t/x.c", "t/u/x.c"]
@@ -49,7 +56,7 @@ def pl(pol):
 class C15(Prop):
     id = "C15"
     title = "File access is confined to the mudlib and always mediated by the master"
-    lean_modules = ["NV.C15.Props", "NV.C15.PropsSys", "NV.C15.Sites", "NV.C15.Witness"]
+    lean_modules = ["NV.C15.Props", "NV.C15.PropsSys", "NV.C15.Negative", "NV.C15.Sites", "NV.C15.Witness"]
     theorems = ["NV.C15.legalPath_eq_spec", "NV.C15.legal_path_spec", "NV.C15.legal_path_secure",
                 "NV.C15.legal_path_safe", "NV.C15.check_valid_path_eq_spec", "NV.C15.check_valid_path_sound",
                 "NV.C15.check_valid_path_denied", "NV.C15.strip_name_relative", "NV.C15.load_open_confined",
@@ -57,8 +64,11 @@ class C15(Prop):
                 "NV.C15.include_path_confined_config", "NV.C15.judge_lp_model",
                 "NV.C15.judge_cvp_model", "NV.C15.judge_inc_model", "NV.C15.judge_sn_model",
                 "NV.C15.model_satisfies_spec", "NV.C15.model_satisfies_spec_absent", "NV.C15.model_satisfies_spec_present",
+                "NV.C15.legalLoop_fuel_irrelevant", "NV.C15.load_model_satisfies_spec", "NV.C15.include_model_satisfies_spec",
+                "NV.C15.inherit_model_satisfies_spec", "NV.C15.ed_session_satisfies_spec", "NV.C15.ed_session_satisfies_spec_absent", "NV.C15.segOk_edStep",
                 "NV.C15.efun_segOk", "NV.C15.fold_ok", "NV.C15.check_valid_path_error_fails_closed",
-                "NV.C15.check_valid_path_absent_or_odd_approves", "NV.C15.mediation_propagates_errors",
+                "NV.C15.check_valid_path_absent_or_odd_approves", "NV.C15.mediation_propagates_errors", "NV.C15.cvp_call_table", "NV.C15.legal_path_literals",
+                "NV.C15.save_tmp_format",
                 "NV.C15.mediated_sites", "NV.C15.inventory_covers_efuns", "NV.C15.efun_surface_modelled"]
     witness_theorems = ["NV.C15.include_normaliser_not_confined", "NV.C15.include_normaliser_trailing_dotdot",
                         "NV.C15.include_normaliser_slash_quirk", "NV.C15.include_unguarded_escapes",
@@ -92,7 +102,10 @@ class C15(Prop):
             "#include / inherit / load_object names) + EXHAUSTIVE batches of all strings over {a . / #} up to length 7 "
             "(quick) / 9 (thorough) through legal_path, check_valid_path (allow, echo), strip_name and the include "
             "normaliser (3 including files) + seeded random long paths and random efun calls; one batch case carries up "
-            "to 4096 strings; a case is non-trivial when its trace has >= 2 lines; distinct = distinct canonical trace")
+            "to 4096 strings; master policies: deny, allow, echo, fixed (legal / illegal / absolute / empty), raise, raiseon, "
+            "odd return types, read-only, write-only, per-path read-only, and a master without valid_read/valid_write; "
+            "editing sessions (ed + a/e/E/f/r/w/W/x/q/Q with and without names); every branch of the efun models is hit "
+            "(evidence histogram.branches); a case is non-trivial when its trace has >= 2 lines; distinct = distinct canonical trace")
     not_covered = ["symbolic links inside the mudlib (link() creates them; resolution is the kernel's)",
                    "the ed efun is not run (needs an interactive user); its fopen sites are covered by the inventory only",
                    "SaveBinaryDir / #pragma save_binary (binaries.c) is inventoried but not exercised",
@@ -198,7 +211,8 @@ class C15(Prop):
             for s in ["/d/f", "", "/", "//etc", "/../x", "d/./f", "/d/."]] +
            ["usn1 " + br(s) for s in ["//a/b.c.c", "a//b", ".c", "x.c", "/", "", "a.c.cc", "/.c.c", "abc"]] +
            ["uinc1 %s %s" % (br(b), br(n)) for b in INC_BASES for n in INC_NAMES])
-        for pol in POL_FULL + POL_FEW + POL_ERR + ["ABSENT"]:
+        for pol in POL_FULL + POL_FEW + POL_ERR + POL_KIND + ["ABSENT"]:
+            mk("edsession-%s" % pol, [pl(pol)] + ["es %s %s" % (br(f), c) for f, c in SESSIONS])
             paths = P1 if pol in POL_FULL else ["/d/f.txt", "/d/sub", "/../outside.txt", "", "/d/nofile"]
             for e in EFUN1:
                 mk("%s-%s" % (e, pol), [pl(pol)] + ["fx %s %s" % (e, br(p)) for p in paths])
@@ -282,7 +296,7 @@ class C15(Prop):
                     base = rng.choice(INC_BASES + ["a/b/c/d.c", "sub/..x/y.c"])
                     lines.append("uinc1 %s %s" % (br(base), br(nm[:100])))
             elif k == 1:    # efun calls
-                pol = rng.choice(POL_FULL * 3 + POL_FEW + POL_ERR + ["ABSENT", "fixed=" + br(self.rand_sys_path(rng)),
+                pol = rng.choice(POL_FULL * 3 + POL_FEW + POL_ERR + POL_KIND + ["ABSENT", "fixed=" + br(self.rand_sys_path(rng)),
                                                                      "raiseon=" + br(self.rand_sys_path(rng))])
                 absent = pol == "ABSENT"
                 lines.append(pl(pol))
@@ -298,6 +312,21 @@ class C15(Prop):
                             lines.append("fx %s %s" % (rng.choice(EFUNS), br(p)))
                     if rng.chance(1, 6) and not absent:
                         lines.append("policy " + rng.choice(POL_FULL + POL_FEW + POL_ERR))
+            elif k == 2 and rng.chance(1, 2):    # editing sessions
+                pol = rng.choice(POL_FULL + POL_KIND * 2 + POL_FEW + POL_ERR + ["ABSENT"])
+                lines.append(pl(pol))
+                names = ["/d/f.txt", "/d/out", "/d/sub/n", "/d/nofile", "out2", "/d", "/d/../x", "/a/a", "/../outside.txt", "/d/obj.c"]
+                for _ in range(6):
+                    cs = []
+                    for _ in range(rng.range(1, 8)):
+                        c = rng.choice(["a", "e", "E", "f", "r", "w", "W", "w", "x", "q", "Q", "w"])
+                        if c == "a":
+                            cs.append("a:t%d" % rng.below(9))
+                        elif c in ("x", "q", "Q") or rng.chance(1, 2):
+                            cs.append(c)
+                        else:
+                            cs.append(c + ":" + rng.choice(names))
+                    lines.append("es %s %s" % (br(rng.choice(names)), ",".join(cs)))
             else:           # include names
                 for _ in range(10):
                     comps = ["..", ".", "", "a", "d", "inc.h", "std.h", "include", "t", "x"]
@@ -314,26 +343,55 @@ class C15(Prop):
         return self.generate(rng, max(10, n // 3), "search")
 
     def histogram(self, cases, impl):
-        h = {"strings_legal": 0, "strings_illegal": 0, "cvp_returned": 0, "cvp_refused": 0, "include_lines": 0,
-             "efun_calls": 0, "master_calls": 0, "master_denials": 0, "fs_calls": 0, "fs_write_calls": 0}
+        h = {"strings_legal": 0, "strings_illegal": 0, "cvp_returned": 0, "cvp_refused": 0, "cvp_error": 0,
+             "include_lines": 0, "efun_calls": 0, "master_calls": 0, "master_denials": 0, "master_raises": 0,
+             "master_rewrites": 0, "master_odd": 0, "absent_master_cases": 0, "fs_calls": 0, "fs_write_calls": 0}
+        br = {}     # model branches: efun -> shape of the libc calls of one call segment -> count
+
+        def close(efun, shape):
+            if efun is not None:
+                d = br.setdefault(efun, {})
+                k = ",".join(shape) or "-"
+                d[k] = d.get(k, 0) + 1
         for c in cases:
+            cur, shape, approved = None, [], None
             for l in impl.get(c.id, []):
                 if l.startswith("lp "):
                     h["strings_legal" if l.endswith(" 1") else "strings_illegal"] += 1
                 elif l.startswith("cvp "):
-                    h["cvp_refused" if l.endswith("none") else "cvp_returned"] += 1
+                    h["cvp_error" if l.endswith("!err") else "cvp_refused" if l.endswith("none") else "cvp_returned"] += 1
                 elif l.startswith("inc "):
                     h["include_lines"] += 1
+                elif l == "master absent":
+                    h["absent_master_cases"] += 1
                 elif l.startswith("call "):
+                    close(cur, shape)
+                    t = l.split()
+                    cur = t[1] if t[1] != "ed" else "ed:" + t[3].strip("[]")
+                    shape = []
                     h["efun_calls"] += 1
                 elif l.startswith("valid_"):
                     h["master_calls"] += 1
-                    if l.endswith("-> 0"):
+                    v = l.rsplit("-> ", 1)[-1]
+                    if v == "0":
                         h["master_denials"] += 1
+                    elif v == "raise":
+                        h["master_raises"] += 1
+                    elif v.startswith("="):
+                        h["master_rewrites"] += 1
+                    elif v.startswith("odd"):
+                        h["master_odd"] += 1
+                    approved = l.split()[1]
                 elif l.startswith("fs "):
                     h["fs_calls"] += 1
-                    if " w [" in l:
+                    t = l.split()
+                    if t[2] == "w":
                         h["fs_write_calls"] += 1
+                    # derived = the touched path is not literally the path the master was last asked about
+                    der = "" if approved is None or t[3].strip("[]") == approved.strip("[]").lstrip("/") else "~"
+                    shape.append(t[1] + der)
+            close(cur, shape)
+        h["branches"] = {k: dict(sorted(v.items(), key=lambda kv: -kv[1])[:12]) for k, v in sorted(br.items())}
         return h
 
 
